@@ -114,3 +114,53 @@ func VerifC09Foreign() {
 		vrt.Assert(w.d.undoLogPresent(xid, branchID), "c09/foreign-write=>undo-log-kept/"+tag)
 	}
 }
+
+// VerifC09TwoRows: an UPDATE branch that changed two rows; each row, as it is
+// now, is arbitrary. Only when every row still equals its after image may the
+// compensation run; when every row equals its before image there is nothing to
+// do; anything else is a foreign write, on whichever row it happened.
+func VerifC09TwoRows() {
+	s := uSchemas[vrt.Choice("schema", len(uSchemas))]
+	xid, branchID := vrt.String("xid", 2), int64(1+vrt.Choice("branch", 2))
+	b1, a1 := uCells(s, "r1.before", 10), uCells(s, "r1.after", 10)
+	b2, a2 := uCells(s, "r2.before", 20), uCells(s, "r2.after", 20)
+	vrt.Assume(!uSameCells(b1, a1) && !uSameCells(b2, a2))
+	log := undo.SQLUndoLog{SQLType: types.SQLTypeUpdate, TableName: s.table,
+		BeforeImage: uImage(s, types.SQLTypeUpdate, [][]driver.Value{b1, b2}),
+		AfterImage:  uImage(s, types.SQLTypeUpdate, [][]driver.Value{a1, a2})}
+	w := uSetup(s, &undo.BranchUndoLog{Xid: xid, BranchID: uint64(branchID), Logs: []undo.SQLUndoLog{log}}, xid, branchID)
+	w.addUndoLog()
+	c1, c2 := uCells(s, "r1.current", 10), uCells(s, "r2.current", 20)
+	w.d.rows = append(w.d.rows, uRow{cells: append([]driver.Value(nil), c1...), present: true}, uRow{cells: append([]driver.Value(nil), c2...), present: true})
+
+	allAfter := uSameCells(c1, a1) && uSameCells(c2, a2)
+	allBefore := uSameCells(c1, b1) && uSameCells(c2, b2)
+	st, err, panicked := w.rollback()
+	vrt.Reach("c09/two-rows")
+	vrt.Assert(!panicked, "c09/no-panic/two-rows")
+	vrt.Observe("stub.bad", w.d.bad)
+	vrt.Assert(w.d.bad == "", "c09/stub-understood-every-statement/two-rows")
+	if panicked || w.d.bad != "" {
+		return
+	}
+	r1, r2 := w.d.find(pkVals(uRow{cells: b1}, s)), w.d.find(pkVals(uRow{cells: b2}, s))
+	vrt.Assert(r1 != nil && r2 != nil, "c09/rows-still-there/two-rows")
+	if r1 == nil || r2 == nil {
+		return
+	}
+	switch {
+	case allAfter:
+		vrt.Reach("c09/two-rows/current=after")
+		vrt.Assert(err == nil && st == branch.BranchStatusPhasetwoRollbacked, "c09/current=after=>rollbacked/two-rows")
+		vrt.Assert(uSameCells(r1.cells, b1) && uSameCells(r2.cells, b2), "c09/current=after=>rows-restored/two-rows")
+	case allBefore:
+		vrt.Reach("c09/two-rows/current=before")
+		vrt.Assert(err == nil && st == branch.BranchStatusPhasetwoRollbacked, "c09/current=before=>rollbacked/two-rows")
+		vrt.Assert(uSameCells(r1.cells, b1) && uSameCells(r2.cells, b2), "c09/current=before=>rows-unchanged/two-rows")
+	default:
+		vrt.Reach("c09/two-rows/foreign-write")
+		vrt.Assert(st != branch.BranchStatusPhasetwoRollbacked, "c09/foreign-write=>not-rollbacked/two-rows")
+		vrt.Assert(uSameCells(r1.cells, c1) && uSameCells(r2.cells, c2), "c09/foreign-write=>rows-left-alone/two-rows")
+		vrt.Assert(w.d.undoLogPresent(xid, branchID), "c09/foreign-write=>undo-log-kept/two-rows")
+	}
+}
